@@ -250,7 +250,10 @@ def andThen (r : World × Outcome) (k : World → World × Outcome) : World × O
 
 /-- `image tmp(...); swap(tmp);` and the destructor of tmp at the end of the scope -/
 def swapWithTmp (c : Cfg) (o : Org) (r : World × Outcome) (s : Nat) : World × Outcome :=
-  andThen r fun w => andThen (pSwap c w s tmpSlot) fun w => (pDtor o w tmpSlot, .ok)
+  andThen r fun w =>
+    match pSwap c w s tmpSlot with
+    | (w', .assertFail x) => (w', .assertFail x)      -- the process stops inside swap
+    | (w', _) => (pDtor o w' tmpSlot, .ok)            -- end of scope: ~tmp
 
 /-! ### the public operations -/
 
